@@ -480,6 +480,24 @@ theorem code_http_range (c : Nat) : 400 ≤ codeToHTTP c ∧ codeToHTTP c ≤ 59
     simp only [Option.getD_some]
     exact codeToHTTP_table_range.1 (c, v) (lookupNat_mem _ _ _ h)
 
+/-! ## Every write site uses the codec (facts regenerated from the source on every run) -/
+
+/-- **grpc_message_sites_encoded**: every place in the package that writes the `Grpc-Message`
+    key - `Set`, `Add` or an index assignment, in whatever function and on whatever path - passes
+    a value produced by `grpcPercentEncode` (or the empty literal of the success case). With
+    `percent_printable` / `percent_roundtrip` this is the property for *all* error paths at once,
+    including those no generated input reaches (a detail that cannot be converted, a status
+    that cannot be marshalled). The list is `Gen.grpcMessageWrites`, rebuilt by `tools/extract`
+    from the syntax tree; a raw write makes this theorem fail to check. -/
+theorem grpc_message_sites_encoded : ∀ w ∈ Gen.grpcMessageWrites, w.2 = 0 ∨ w.2 = 1 := by decide
+
+/-- **grpc_details_sites_encoded**: … and every write of `Grpc-Status-Details-Bin` passes a value
+    produced by `EncodeBinaryHeader` (`binary_header_roundtrip`). -/
+theorem grpc_details_sites_encoded : ∀ w ∈ Gen.grpcDetailsWrites, w.2 = 0 := by decide
+
+-- the lists are not empty (the extractor also refuses to run if it finds no write at all)
+example : Gen.grpcMessageWrites.length = 4 ∧ Gen.grpcDetailsWrites.length = 1 := by decide
+
 /-! ## Non-vacuity: concrete instances of the hypotheses / interesting values. -/
 
 example : codeUnmarshalText (codeString 5) = some 5 := by decide
